@@ -17,7 +17,8 @@ RULE = ('Complete enumeration (exhaustive): every index entry, every map file na
         'seq values are 1..n without gaps; same-position sibling segments are pairwise distinguishable by id+qualifier codes; loop and '
         'segment paths unique within a map; every loop/segment re-fetched by getnodebypath(own path) and every loop/segment/element/'
         'component by getnodebypath2(own path) is the node itself; the tree loaded from a copy of the map directory equals the '
-        'packaged one node for node. Each (file, node, predicate) evaluation is a case; all are non-trivial.')
+        'packaged one node for node; the path every node reports is the same when a fresh load is asked composites first or leaves '
+        'first instead of top-down. Each (file, node, predicate) evaluation is a case; all are non-trivial.')
 ASSUMPTIONS = ['own XML reading of the map files (vpx/mapmodel.py) is the reference for what the configuration says']
 
 NOTE_RE = re.compile(r'^[PRECL](\d\d){2,}$')
@@ -149,8 +150,13 @@ def check_addressing(fname, m, acc):
     for n in pyx_walk(m):
         if n.is_map_root():
             continue
-        p = n.get_path()
         kind = n.base_name
+        try:
+            p = n.get_path()
+        except Exception as e:
+            acc.fail('get-path-raises:%s:%s' % (fname, kind), {'file': fname, 'node': '%s under %s' % (n.id, getattr(n.parent, 'id', None)), 'kind': kind},
+                     core.exc_detail(e))
+            continue
         case = {'file': fname, 'node': p, 'kind': kind}
         if n.is_loop() or n.is_segment():
             acc.evaluations += 1
@@ -280,6 +286,43 @@ def run_file(fname, acc, copy_dir):
                 while i < min(len(a), len(b)) and a[i] == b[i]:
                     i += 1
                 acc.fail('map-dir-copy-differs:%s' % fname, {'file': fname}, 'node #%d: %r vs %r' % (i, a[i:i + 1], b[i:i + 1]))
+            else:
+                check_path_order(fname, m, m2, acc, 'composites-first')
+    for order in ('leaves-first',) + (() if copy_dir else ('composites-first',)):
+        m3 = check_loaded(fname, acc)
+        if m3 is not None:
+            check_path_order(fname, m, m3, acc, order)
+
+
+def check_path_order(fname, m, cold, acc, order):
+    """the path a node reports for itself does not depend on which nodes were asked before: `m` has been walked top-down,
+    `cold` is a fresh load of the same file whose nodes are asked in another order"""
+    warm_nodes = [n for n in pyx_walk(m) if not n.is_map_root()]
+    cold_nodes = [n for n in pyx_walk(cold) if not n.is_map_root()]
+    if len(warm_nodes) != len(cold_nodes):
+        return
+    idx = list(range(len(cold_nodes)))
+    if order == 'composites-first':
+        idx.sort(key=lambda i: (0 if cold_nodes[i].base_name == 'composite' else 1 if cold_nodes[i].is_element() else 2, i))
+    else:
+        idx.reverse()
+    for i in idx:
+        acc.evaluations += 1
+        acc.classes['path-order:' + order] += 1
+        n = cold_nodes[i]
+        kind = n.base_name
+        try:
+            want = warm_nodes[i].get_path()
+        except Exception:
+            continue            # reported by check_addressing
+        try:
+            got = n.get_path()
+        except Exception as e:
+            acc.fail('path-order:%s:%s' % (kind, order), {'file': fname, 'node': want, 'kind': kind}, core.exc_detail(e))
+            continue
+        if got != want:
+            acc.fail('path-order:%s:%s' % (kind, order), {'file': fname, 'node': want, 'kind': kind},
+                     'asked %s on a fresh load the %s reports %r, after a top-down walk %r' % (order, kind, got, want))
 
 
 def shards(tier, seed):
